@@ -5,6 +5,7 @@ import json
 import os
 
 import fiddle as fdl
+from fiddle import daglish
 
 from harness import common, family, graphs, targets
 
@@ -26,6 +27,8 @@ def cases(tier, r):
   yield from _cases(tier, r)
   for _ in range(40 if tier == 'quick' else 600):
     yield 'partials', {'partials': True, 'seed': r.getrandbits(48)}
+  for n in ((70000,) if tier == 'quick' else (70000, 140000, 300000)):
+    yield 'big', {'big': n, 'seed': r.getrandbits(48)}
   yield from _delegated_cases(tier, r)
 
 
@@ -81,6 +84,17 @@ def make_root(case):
   root = graphs.gen_graph(r, size=case['size'], positional=case.get('positional', True),
                           nt_bias=case.get('nt_bias', 0.0), duck=case.get('duck', 0.0),
                           tagged_values=case.get('tagged_values', 0.0))
+  if case.get('gaps') or r.random() < 0.25:
+    # positional gaps made by later edits: a positional parameter with a default is unset again
+    # while *args entries (or later positional values) stay
+    for v, _ in list(daglish.iterate(root)):
+      if isinstance(v, fdl.Buildable) and r.random() < 0.6:
+        sig = graphs.sig_of(v)
+        has_var = any(isinstance(k, int) and k >= len([p for p in sig if p[1] in ('po', 'pk')])
+                      for k in v.__arguments__)
+        for i, p in enumerate(sig):
+          if p[2] and p[1] == 'pk' and p[0] in v.__arguments__ and has_var and r.random() < 0.7:
+            delattr(v, p[0])
   # deep chains stay inside CPython's recursion budget (a list link costs two traversal levels;
   # fdl.build needs about five frames per level, the default limit is 1000 frames)
   levels = 0
@@ -93,7 +107,28 @@ def make_root(case):
   return root
 
 
+def run_big(case):
+  """One shared Buildable referenced before and after a very large number of other values."""
+  shared = fdl.Config(graphs.node_fn(1, 1), p=1)
+  root = fdl.Config(graphs.node_fn(1, 0), p=shared, q=[float(i) + 0.5 for i in range(case['big'])],
+                    r=[shared, {'k': shared}])
+  del targets.LOG[:]
+  built = fdl.build(root)
+  n_inv = sum(1 for rec in targets.LOG if rec.fn_name == graphs.callable_name(graphs.node_fn(1, 1)))
+  slots = dict(targets.rec_of(built).slots)
+  same = slots['p'] is slots['r'][0] is slots['r'][1]['k']
+  problems = []
+  if n_inv != 1:
+    problems.append(f'the shared Buildable was invoked {n_inv} times')
+  if not same:
+    problems.append('references to one Buildable received different built objects')
+  del targets.LOG[:]
+  return {'partials': True, 'problems': problems, 'n': case['big']}
+
+
 def execute(case):
+  if case.get('big'):
+    return run_big(case), None
   if case.get('partials'):
     return run_partials(case), None
   if case.get('delegate'):
@@ -208,7 +243,7 @@ def oracle(case, real):
   if case.get('delegate'):
     import importlib
     return importlib.import_module('harness.props.' + case['delegate']).oracle(case['case'], real)
-  if case.get('partials'):
+  if case.get('partials') or case.get('big'):
     if real['problems']:
       return {'what': 'built Partial nodes do not mirror the Partial instances of the configuration',
               'problems': real['problems']}
